@@ -71,7 +71,67 @@ pub fn one(ctx: &mut Ctx, tag: &str, t: &OwnedTerm) {
     }
 }
 
+/// every boundary the encoder distinguishes, on every run (the random generator reaches them only now and then)
+fn boundary(ctx: &mut Ctx) {
+    use erltf::types::{Atom, BigInt, ExternalPid, ExternalReference, Sign};
+    let mut ts: Vec<OwnedTerm> = vec![];
+    for &i in crate::tgen::INT_BOUNDS {
+        ts.push(OwnedTerm::Integer(i));
+    }
+    // big integers: 1..=9 digits, the SMALL/LARGE_BIG switch at 255/256 digits, both signs
+    for len in [1usize, 2, 4, 7, 8, 9, 254, 255, 256, 257, 300, 1000] {
+        for neg in [false, true] {
+            let mut d: Vec<u8> = (0..len).map(|k| (k as u8).wrapping_mul(37).wrapping_add(1)).collect();
+            *d.last_mut().unwrap() |= 1;
+            ts.push(OwnedTerm::BigInt(BigInt::new(if neg { Sign::Negative } else { Sign::Positive }, d)));
+        }
+    }
+    // atoms: the SMALL/long switch at 255/256 bytes, the limit at 65535/65536, multi-byte text around both
+    for (len, unit) in [(0usize, "a"), (1, "a"), (254, "a"), (255, "a"), (256, "a"), (65535, "a"), (65536, "a"), (70000, "a"),
+                        (127, "é"), (128, "é"), (85, "€"), (86, "€"), (32767, "é"), (32768, "é"), (64, "😀")] {
+        ts.push(OwnedTerm::Atom(Atom::new(unit.repeat(len))));
+    }
+    // tuples, lists, strings, binaries around their width switches
+    for n in [0usize, 1, 254, 255, 256, 257] {
+        ts.push(OwnedTerm::Tuple((0..n).map(|k| OwnedTerm::Integer(k as i64 % 7)).collect()));
+        ts.push(OwnedTerm::List((0..n).map(|k| OwnedTerm::Integer(k as i64 % 300)).collect()));
+    }
+    for n in [0usize, 1, 65534, 65535, 65536, 65537] {
+        ts.push(OwnedTerm::String("x".repeat(n)));
+        ts.push(OwnedTerm::Binary(vec![7u8; n]));
+        ts.push(OwnedTerm::List(vec![OwnedTerm::Integer(65); n]));
+    }
+    for bits in 1u8..=8 {
+        ts.push(OwnedTerm::BitBinary { bytes: vec![0xff, 0x80], bits });
+    }
+    // references: 0..5 words and the 16-bit count limit
+    for n in [0usize, 1, 2, 3, 4, 5, 6, 65535, 65536] {
+        ts.push(OwnedTerm::Reference(ExternalReference::new(Atom::new("n@h"), 3, (0..n as u32).collect())));
+    }
+    ts.push(OwnedTerm::Pid(ExternalPid::new(Atom::new(""), 0, 0, 0)));
+    ts.push(OwnedTerm::Pid(ExternalPid::new(Atom::new("é".repeat(200)), u32::MAX, u32::MAX, u32::MAX)));
+    ts.push(OwnedTerm::ImproperList { elements: vec![OwnedTerm::Integer(1)], tail: Box::new(OwnedTerm::Binary(vec![])) });
+    ts.push(OwnedTerm::Nil);
+    ts.push(OwnedTerm::List(vec![]));
+    for t in &ts {
+        ctx.count("boundary_terms");
+        one(ctx, "boundary", t);
+        // the streaming entry point writes the same bytes (or fails alike)
+        let mut w: Vec<u8> = vec![];
+        let rw = std::panic::catch_unwind(std::panic::AssertUnwindSafe(|| erltf::encode_to_writer(t, &mut w)));
+        let same = match (rw, erltf::encode(t)) {
+            (Ok(Ok(())), Ok(b)) => w == b,
+            (Ok(Err(_)), Err(_)) => true,
+            _ => false,
+        };
+        if !same {
+            ctx.fail("c01-encode-to-writer-differs", &term_text(t)[..term_text(t).len().min(200)]);
+        }
+    }
+}
+
 pub fn run(ctx: &mut Ctx) {
+    boundary(ctx);
     let n = ctx.n(1500, 60000);
     let cfg = Cfg::default();
     for _ in 0..n {
